@@ -5,7 +5,7 @@ Require Import ExtrOcamlBasic.
 Extraction Language OCaml.
 Extraction "../build/ocaml/C03/model.ml"
   caps_init set_encodings model_update hdr_matches phdr_count region_of_rects
-  on_fur fur_accepted clip_request on_pixfmt on_ptr_moved on_set_cursor on_newfb on_setscale
+  on_fur fur_accepted clip_request on_pixfmt on_ptr_moved on_set_cursor on_newfb on_setscale on_sds_fail
   emit_rect announce n_region_rects emit_region emitted_len copy_ublen copy_peak count_tight
   parse_stream pst_set_fb pst_set_encodings pst_set_format pst_set_scale
   check_handshake handshake_shape server_init_bytes
